@@ -14,7 +14,9 @@ for d in sorted(glob.glob(os.path.join(HERE, "seeded", "*"))):
     meta = json.load(open(os.path.join(d, "meta.json"))) if os.path.exists(os.path.join(d, "meta.json")) else {}
     res = json.load(open(os.path.join(d, "result.json"))) if os.path.exists(os.path.join(d, "result.json")) else None
     prop = meta.get("property", "?")
-    if res is None:
+    if meta.get("neutralised"):
+        caught, ran = "(neutralised by a later fix)", ""
+    elif res is None:
         caught, ran = "(not run)", ""
     else:
         caught = ", ".join(res.get("caught_by", [])) or "-"
